@@ -97,6 +97,35 @@ def install(R):
           ],
           raises={"TypeError": dict(when="truthy(cases) and not is_dict(cases) and not isinstance(sget(cases, 0), dict) and fn_args is None")})
 
+    CASE = "xyzpy/gen/case_runner.py:"
+    R.inline.add(PR + "_str_2_tuple")
+    R.add(PR + "parse_fn_args", result="V", props=["C02", "C03"],
+          ensures=[("sequence", "is_seq(result)"),
+                   ("given_names", "implies(fn_args is not None and isinstance(fn_args, str), slen(result) == 1 and sget(result, 0) == fn_args)"),
+                   ("given_sequence", "implies(fn_args is not None and not isinstance(fn_args, str) and is_seq(fn_args), "
+                                      "slen(result) == slen(fn_args) and forall(lambda k: implies(0 <= k and k < slen(result), sget(result, k) == sget(fn_args, k))))")],
+          raises={"AnyError": dict()})
+    R.pure_ext |= {"inspect.signature"}
+
+    R.add(CASE + "case_runner", result="V", props=["C02"],
+          fn_params={"fn": dict()},
+          requires=[("spelling", "(cases is None or is_dict(cases) or is_seq(cases)) and (combos is None or is_dict(combos) or is_seq(combos))"),
+                    ("constants", "constants is None or is_dict(constants)"), ("fn_args", "fn_args is None or isinstance(fn_args, str) or is_seq(fn_args)")],
+          modifies=["ghost:calls", "ghost:FS"],
+          ensures=[
+              ("one_core_run", "ncalled('combo_runner_core') == 1 and result == call_result('combo_runner_core') "
+                               "and call_arg('combo_runner_core', 'fn') == fn and call_arg('combo_runner_core', 'flat') == True"),
+              ("normalised_when_parsing", "implies(truthy(parse), call_arg('combo_runner_core', 'cases') == call_result('parse_cases') and "
+                                          "call_arg('parse_cases', 'cases') == old(cases) and call_arg('parse_cases', 'fn_args') == call_result('parse_fn_args') and "
+                                          "call_arg('combo_runner_core', 'combos') == call_result('parse_combos') and call_arg('parse_combos', 'combos') == old(combos))"),
+              ("as_given_otherwise", "implies(not truthy(parse), call_arg('combo_runner_core', 'cases') == old(cases) and "
+                                     "call_arg('combo_runner_core', 'combos') == old(combos) and call_arg('combo_runner_core', 'constants') == old(constants))"),
+              ("options_forwarded", "call_arg('combo_runner_core', 'split') == split and call_arg('combo_runner_core', 'shuffle') == shuffle and "
+                                    "call_arg('combo_runner_core', 'parallel') == parallel and call_arg('combo_runner_core', 'executor') == executor and "
+                                    "call_arg('combo_runner_core', 'num_workers') == num_workers"),
+          ],
+          raises={"AnyError": dict()})
+
     R.add(CR + "combo_runner", result="V", props=["C01", "C02"],
           fn_params={"fn": dict()},
           requires=[("spelling", "(combos is None or is_dict(combos) or is_seq(combos)) and (cases is None or is_dict(cases) or is_seq(cases))"),
